@@ -939,7 +939,10 @@ coap_oscore_decrypt_pdu(coap_session_t *session,
      * Decompress COSE object
      * Get Recipient Context based on kid and optional kid_context
      */
-    if (oscore_decode_option_value(osc_value, osc_size, cose) == 0) {
+    if (oscore_decode_option_value(osc_value, osc_size, cose) == 0 ||
+        /* RFC8613 5. and 6.1: a request carries both kid and Partial IV */
+        osc_size == 0 || (osc_value[0] & 0x08) == 0 ||
+        (osc_value[0] & 0x07) == 0) {
       coap_log_warn("OSCORE: OSCORE Option cannot be decoded.\n");
       build_and_send_error_pdu(session,
                                pdu,
